@@ -280,9 +280,11 @@ def main(ctx):
             obs = {'ASA': parse_asa, 'IOS': parse_ios, 'Linux': parse_linux, 'PAN-OS': parse_panos}[fam](r['out'], texts)
             items.append(c_case(kind, acl, v6, raw, obs))
             used.append((i, rep, fam))
-        text = ('From Coq Require Import List.\nFrom NA Require Import Merge.Model Merge.Check.\nImport ListNotations.\n'
-                'Definition V := Eval vm_compute in mverdicts %s.\nPrint V.\n' % C.clist(items))
-        v = C.parse_verdict_list(ctx.coq_eval('c18', text), 5 * len(items))
+        v = []
+        for s_ in range(0, len(items), 1500):
+            text = ('From Coq Require Import List.\nFrom NA Require Import Merge.Model Merge.Check.\nImport ListNotations.\n'
+                    'Definition V := Eval vm_compute in mverdicts %s.\nPrint V.\n' % C.clist(items[s_:s_ + 1500]))
+            v += C.parse_verdict_list(ctx.coq_eval('c18_%d' % s_, text), 5 * len(items[s_:s_ + 1500]))
         names = ['', 'an entry is missing or duplicated in the effective target', 'the relative order inside a part is not preserved',
                  'a raw entry does not precede the Netspoc entries', 'an [APPEND] entry is misplaced']
         for k, (i, rep, fam) in enumerate(used):
